@@ -51,6 +51,8 @@ func Probes(prop string) []*Case {
 		meth("Do", ps(par("a", Basic("int"))), nil)}}), Cfg: Cfg{Dest: "implicit", Args: []string{"P", "P"}}, Solo: true})
 	add("KF-15", []string{"C12", "C01"}, &Case{Src: newSrc("probe15", one, Iface{Name: "P", Methods: []Method{
 		meth("Do", ps(par("string", Basic("string")), par("s", Basic("string"))), nil)}}), Cfg: Cfg{Dest: "implicit", Args: []string{"P"}}})
+	add("KF-17", []string{"C12", "C01", "C09"}, &Case{Src: newSrc("probe17", one, Iface{Name: "P", OneFile: true, TParams: []TypeParam{{Name: "t", Constraint: "any"}},
+		Methods: []Method{meth("Do", ps(par("_", Named(0, "T")), par("v", TParam("t"))), nil)}}), Cfg: Cfg{Dest: "implicit", Args: []string{"P"}}})
 	add("KF-16", []string{"C01", "C11"}, &Case{NoPredict: true, Src: &SrcPkg{Name: "probe16", Pkgs: []Pkg{}, Raw: map[string]string{"p.go": "package probe16\n\nimport \"unsafe\"\n\ntype P interface {\n\tPtr(p unsafe.Pointer) uintptr\n}\n"}},
 		Cfg: Cfg{Dest: "implicit", Args: []string{"P"}}})
 	if prop == "C15" {
